@@ -101,6 +101,7 @@ var c16Forms = []string{
 	`<p>{ s }</p>`, `<p>{{ strErr(s) }}</p>`, `<p>{ strErr(s) }</p>`, `<p title={ s }>x</p>`, `<p style={ s }>x</p>`, `<p class={ s }>x</p>`, `<p data-v={ s }>x</p>`,
 	`<p onclick={ s }>x</p>`, `<a href={ s }>x</a>`, `<script>const a = {{ s }};</script>`, `<script>const a = "{{ s }}";</script>`, `<!-- { s } -->`, `<p>text s</p>`,
 	`<input value={ s }/>`, `<input disabled?={ b }/>`, `<input if b { disabled }/>`, "if b {\n\t\t<i>x</i>\n\t}", `<p { attrs... }>x</p>`, `@leaf(s)`, "@wrap(s) {\n\t\t<i>y</i>\n\t}",
+	`<p>50% off</p>`, `<p style="width: 100%">x</p>`, `<a href="/a%20b?c=%d">l</a>{ s }`, `<p>%s %v %!(x) %"</p>`,
 	`<p>{ t }</p>`, `<p>hello</p>`, `<p>bye now</p>`, `<p>hello</p><p>again</p>`, `<b>{ s }</b><i>{ t }</i>`, `<i>{ t }</i><b>{ s }</b>`, `<style>p { color: red; }</style>`,
 	"switch s {\n\t\tcase \"a\":\n\t\t\t<i>x</i>\n\t}", "for _, item := range items {\n\t\t<li>{ item }</li>\n\t}", `<p class={ "a", templ.KV(s, b) }>x</p>`, `<form action={ u }></form>`,
 }
